@@ -301,3 +301,13 @@ Theorem C19_combined_history_ownership : forall psh mc ops st' ret, Forall op_ok
   crun psh mc (mk_cstate heap_empty sempty) ops = CDone st' ret -> own_ok psh (cs_heap st').
 Proof. exact combined_history_ownership. Qed.
 Print Assumptions C19_combined_history_ownership.
+
+(* a free step of the combined machine never fails: from a state satisfying the coupling invariant cinv and the class
+   invariants linv, freeing a block that is live (live_block: its span belongs to class c, the offset is a block start,
+   the block is in c's ghost live list) is answered CDone - never CSupplyFailed (the span model accepts the release of
+   an emptied span to the cache), never CBadCall, never CRefusedByHeap - and both invariants hold afterwards *)
+Theorem C19_combined_free_never_fails : forall psh mc st span off lv c, cinv st -> linv st lv -> live_block st lv span off c ->
+  exists st' ret, cstep psh mc st (CFreeSM span off) = CDone st' ret /\ cinv st' /\
+    linv st' (lv_del lv c (span, block_index c off)).
+Proof. exact cstep_free_never_fails. Qed.
+Print Assumptions C19_combined_free_never_fails.
